@@ -148,34 +148,58 @@ func evalExecBlock(vm *r.VM, execBlock *syntax.ExecBlock, params []r.Element) (r
 }
 
 func evalStmtBlock(vm *r.VM, stmtBlock *syntax.StmtBlock) (r.Element, error) {
+	if err := declareBlockDefinitions(vm, stmtBlock, false); err != nil {
+		return nil, err
+	}
+	return evalBlockStatements(vm, stmtBlock, false)
+}
+
+// declareBlockDefinitions - the methods and types a block declares are known in all of it
+// (local: the block is nested in a body - a branch, a loop pass, a handler: its definitions
+// end with it and are no exports of the module)
+func declareBlockDefinitions(vm *r.VM, stmtBlock *syntax.StmtBlock, local bool) error {
 	for _, stmtX := range stmtBlock.Children {
 		switch v := stmtX.(type) {
 		case *syntax.ClassDeclareStmt:
 			// declare class (a failing property initialiser is reported at the declaration)
 			vm.SetCurrentLine(v.GetCurrentLine())
-			if err := evalClassDeclareStmt(vm, v); err != nil {
-				return nil, err
+			if err := evalClassDeclareStmt(vm, v, local); err != nil {
+				return err
 			}
 		case *syntax.FunctionDeclareStmt:
 			vm.SetCurrentLine(v.GetCurrentLine())
 			if v.DeclareType == syntax.DeclareTypeConstructor {
 				if err := evalConstructorDeclareStmt(vm, v); err != nil {
-					return nil, err
+					return err
 				}
 			} else {
-				if err := evalFunctionDeclareStmt(vm, v); err != nil {
-					return nil, err
+				if err := evalFunctionDeclareStmt(vm, v, local); err != nil {
+					return err
 				}
 			}
 		}
 	}
-	return evalPureStmtBlock(vm, stmtBlock)
+	return nil
 }
 
-// evalPureStmtBlock - evaluate statement block without classDef/funcDef/import statements
+// evalPureStmtBlock - evaluate a block nested in a body (branch, loop pass, handler): a scope
+// of its own, in which the methods and types it declares are declared first
 func evalPureStmtBlock(vm *r.VM, stmtBlock *syntax.StmtBlock) (r.Element, error) {
+	return evalBlockStatements(vm, stmtBlock, true)
+}
+
+// evalBlockStatements - the statements of a block in a new scope. Declarations of methods and
+// types are no statements to execute: they have been declared by the caller (the block of a
+// body) or are declared here, inside the new scope (declareLocal)
+func evalBlockStatements(vm *r.VM, stmtBlock *syntax.StmtBlock, declareLocal bool) (r.Element, error) {
 	scope := vm.BeginScope()
 	defer scope.EndScope()
+
+	if declareLocal {
+		if err := declareBlockDefinitions(vm, stmtBlock, true); err != nil {
+			return nil, err
+		}
+	}
 
 	// a block that holds declarations of methods / types only yields 空 (not a Go nil)
 	var rtnValue r.Element = value.NewNull()
@@ -311,10 +335,10 @@ func evalStatement(vm *r.VM, stmt syntax.Statement) (r.Element, error) {
 		if v.DeclareType == syntax.DeclareTypeConstructor {
 			return value.NewNull(), evalConstructorDeclareStmt(vm, v)
 		} else {
-			return value.NewNull(), evalFunctionDeclareStmt(vm, v)
+			return value.NewNull(), evalFunctionDeclareStmt(vm, v, true)
 		}
 	case *syntax.ClassDeclareStmt:
-		return value.NewNull(), evalClassDeclareStmt(vm, v)
+		return value.NewNull(), evalClassDeclareStmt(vm, v, true)
 	case *syntax.IterateStmt:
 		return value.NewNull(), evalIterateStmt(vm, v)
 	case *syntax.FunctionReturnStmt:
@@ -380,7 +404,7 @@ func evalVarDeclareStmt(vm *r.VM, node *syntax.VarDeclareStmt) error {
 }
 
 // 定义XX
-func evalClassDeclareStmt(vm *r.VM, node *syntax.ClassDeclareStmt) error {
+func evalClassDeclareStmt(vm *r.VM, node *syntax.ClassDeclareStmt, local bool) error {
 	module := vm.GetCurrentModule()
 
 	className, err := MatchIDName(node.ClassName)
@@ -404,7 +428,7 @@ func evalClassDeclareStmt(vm *r.VM, node *syntax.ClassDeclareStmt) error {
 	}
 
 	// then add symbol to export value (declarations of the module body only)
-	if isModuleBody(vm) {
+	if isModuleBody(vm) && !local {
 		if err := module.AddExportValue(className.GetLiteral(), classRef); err != nil {
 			return err
 		}
@@ -421,7 +445,7 @@ func isModuleBody(vm *r.VM) bool {
 }
 
 // 如何XX？
-func evalFunctionDeclareStmt(vm *r.VM, node *syntax.FunctionDeclareStmt) error {
+func evalFunctionDeclareStmt(vm *r.VM, node *syntax.FunctionDeclareStmt, local bool) error {
 	module := vm.GetCurrentModule()
 
 	// declare as normal function
@@ -437,7 +461,7 @@ func evalFunctionDeclareStmt(vm *r.VM, node *syntax.FunctionDeclareStmt) error {
 	}
 
 	// then add symbol to export value (declarations of the module body only)
-	if module != nil && isModuleBody(vm) {
+	if module != nil && isModuleBody(vm) && !local {
 		if err := module.AddExportValue(vtag.GetLiteral(), fn); err != nil {
 			return err
 		}
